@@ -786,17 +786,21 @@ class Lib:
             pass
         elif kind == "rq":
             # a request as a caller builds it: signon carrying CLIENTUID (client configured for 2.0.3), plus a profile / statement request
-            M = self.M
-            fixed = self.datetime.datetime(2024, 2, 29, 12, 0, 0, tzinfo=self.datetime.timezone.utc)
-            cl = self.OFXClient("https://ofx.example.invalid/", userid="jdoe", clientuid="CLIENTUID-0001-ABCD", org="ORG", fid="77", version=203, bankid="1")
-            cl.dtclient = lambda: fixed
-            son = cl.signon("t0ps3kr1t")
-            if name == "profile":
-                body = dict(profmsgsrqv1=M.PROFMSGSRQV1(M.PROFTRNRQ(trnuid="T1", profrq=M.PROFRQ(clientrouting="NONE", dtprofup=fixed))))
-            else:
-                stmtrq = M.STMTRQ(bankacctfrom=M.BANKACCTFROM(bankid="1", acctid="2", accttype="CHECKING"), inctran=M.INCTRAN(dtstart=fixed, include=True))
-                body = dict(bankmsgsrqv1=M.BANKMSGSRQV1(M.STMTTRNRQ(trnuid="T1", stmtrq=stmtrq)))
-            b["rq"] = (cl, M.OFX(signonmsgsrqv1=son, **body))
+            try:
+                M = self.M
+                fixed = self.datetime.datetime(2024, 2, 29, 12, 0, 0, tzinfo=self.datetime.timezone.utc)
+                cl = self.OFXClient("https://ofx.example.invalid/", userid="jdoe", clientuid="CLIENTUID-0001-ABCD", org="ORG", fid="77", version=203, bankid="1")
+                cl.dtclient = lambda: fixed
+                son = cl.signon("t0ps3kr1t")
+                if name == "profile":
+                    body = dict(profmsgsrqv1=M.PROFMSGSRQV1(M.PROFTRNRQ(trnuid="T1", profrq=M.PROFRQ(clientrouting="NONE", dtprofup=fixed))))
+                else:
+                    stmtrq = M.STMTRQ(bankacctfrom=M.BANKACCTFROM(bankid="1", acctid="2", accttype="CHECKING"), inctran=M.INCTRAN(dtstart=fixed, include=True))
+                    body = dict(bankmsgsrqv1=M.BANKMSGSRQV1(M.STMTTRNRQ(trnuid="T1", stmtrq=stmtrq)))
+                b["rq"] = (cl, M.OFX(signonmsgsrqv1=son, **body))
+                b["rq_o"] = ("ok", self.dump_inst(b["rq"][1]))
+            except Exception as e:      # noqa  (a construction that fails here - it never does in a clean process - is an outcome, not a harness error)
+                b["rq_o"] = ("err", type(e).__name__)
         elif kind == "gen":
             b["gen"] = []
             for full in (False, True):
@@ -834,6 +838,10 @@ class Lib:
             # every supported version as a PER-CALL override, below and above 1.0.3 (where CLIENTUID appeared), the client's own version
             # before, between and after; the caller's instance is snapshotted around every call, and the three serializations with the
             # client's own version must be the same bytes
+            o = b["rq_o"]
+            out.append({"k": "construct|%s" % group, "c": "construct", "d": [hashlib.sha1(repr(o).encode()).hexdigest()[:16]], "mut": False,
+                        "ok": o[0] == "ok", "n": 1, "p": repr(o)[:160], "mutp": ""})
+            if "rq" not in b: return
             same = []
             for i, (ver, closed) in enumerate([(203, "c"), (102, "c"), (203, "c"), (102, "u"), (103, "c"), (151, "u"), (160, "c"), (200, "c"), (201, "c"), (202, "c"),
                                                (210, "c"), (211, "c"), (220, "c"), (203, "c")]):
